@@ -33,6 +33,6 @@ T("ufunc.divmod", "call,separate-unit-object|(4,)", lambda a, b: np.divmod(a, b)
 T("ufunc.floor_divide", "inplace,separate-unit-object|(4,)", lambda a, b: operator.ifloordiv(a, b), {"a": I("X", (4,), "pos"), "b": I("Xc", (4,), "pos")}, cls="other", dts="fi", inplace=("a",))
 for name in ("negative", "absolute", "sign", "square", "sqrt", "reciprocal", "rint", "floor", "ceil", "trunc", "isfinite", "isnan", "signbit", "positive", "conjugate"):
     uf = getattr(np, name)
-    cls = "bare" if name in ("isfinite", "isnan", "signbit", "sign") else ("same" if name in ("negative", "absolute", "positive", "conjugate") else "other")  # rounding ufuncs: no class verdict (unyt's tests pin rint to a bare result)
+    cls = "bare" if name in ("isfinite", "isnan", "signbit", "sign") else ("same" if name in ("negative", "absolute", "positive", "conjugate", "rint", "floor", "ceil", "trunc") else "other")  # rint: unyt's tests pin it to a bare result - judged, and listed as a known finding
     for sh in [(4,), ()]:
         T("ufunc." + name, f"call|{sh}", (lambda a, uf=uf: uf(a)), {"a": I("X", sh, "pos" if name in ("sqrt", "reciprocal") else "f")}, cls=cls, dts="fi" if name not in ("sqrt", "reciprocal") else "f", **({"noncov": "rounding is not scale-covariant"} if name in ("rint", "floor", "ceil", "trunc") else {}))
